@@ -238,11 +238,11 @@ func tileMain(args []string) error {
 				h, feed, suffix = sl.RekorHandler("1234"), rekor.FeedLog, "/?treeID=1234"
 			}
 			// what sits between the feeder and the log differs per worker: nothing, a compressing front end, a redirect to a canonical location
-			front := []string{"plain", "gzip", "redirect"}[wk%3]
+			front := []string{"plain", "gzip", "redirect", "prefix"}[wk%4]
 			ts := httptest.NewServer(stublog.FrontEnd(h, front))
 			defer ts.Close()
 			tag += "/" + front
-			lc, err := config.NewLog(l.Origin, l.Key.VKey(), ts.URL+suffix)
+			lc, err := config.NewLog(l.Origin, l.Key.VKey(), stublog.URLOf(ts.URL, front)+suffix)
 			if err != nil {
 				firstErr = err
 				return
